@@ -481,3 +481,84 @@ Lemma den_eval_scale s k o x y :
 Proof. cbn [eval tmul tq TE]. rewrite den_smul. reflexivity. Qed.
 
 End DenHom.
+
+(* ---- composition with the public operators (kobj, op_add, op_mul) ---- *)
+Section ObjHom.
+Local Open Scope R_scope.
+Definition osum (o : nat) (x y : list expr) (ks : list kobj) : R :=
+  fold_right (fun k acc => den (@oeval TE k o x y) + acc) 0 ks.
+Definition oprod (o : nat) (x y : list expr) (ks : list kobj) : R :=
+  fold_right (fun k acc => den (@oeval TE k o x y) * acc) 1 ks.
+
+Lemma den_oeval_add ks o x y : den (@oeval TE (OAdd ks) o x y) = osum o x y ks.
+Proof.
+  unfold osum. cbn [oeval]. induction ks as [|k ks IH]; cbn [fold_right]; [exact Q2R'_0|].
+  etransitivity; [apply den_sadd|]. f_equal. exact IH.
+Qed.
+Lemma den_oeval_mul ks o x y : den (@oeval TE (OMul ks) o x y) = oprod o x y ks.
+Proof.
+  unfold oprod. cbn [oeval]. induction ks as [|k ks IH]; cbn [fold_right]; [exact Q2R'_1|].
+  etransitivity; [apply den_smul|]. f_equal. exact IH.
+Qed.
+Lemma den_oeval_scale s k o x y :
+  den (@oeval TE (OScale s k) o x y) = Q2R' s * den (@oeval TE k o x y).
+Proof. cbn [oeval tmul tq TE]. rewrite den_smul. reflexivity. Qed.
+Lemma den_oeval_leaf k o x y : den (@oeval TE (OLeaf k) o x y) = den (@eval TE k o x y).
+Proof. reflexivity. Qed.
+
+Lemma osum_app o x y l1 l2 : osum o x y (l1 ++ l2) = osum o x y l1 + osum o x y l2.
+Proof. unfold osum. induction l1 as [|k l1 IH]; cbn [app fold_right]; [ring|]. rewrite IH. ring. Qed.
+Lemma oprod_app o x y l1 l2 : oprod o x y (l1 ++ l2) = oprod o x y l1 * oprod o x y l2.
+Proof. unfold oprod. induction l1 as [|k l1 IH]; cbn [app fold_right]; [ring|]. rewrite IH. ring. Qed.
+
+Lemma osum_summands a o x y : osum o x y (summands a) = den (@oeval TE a o x y).
+Proof.
+  destruct a; cbn [summands]; try (unfold osum; cbn [fold_right]; ring).
+  symmetry. apply den_oeval_add.
+Qed.
+Lemma oprod_factors a o x y : oprod o x y (factors a) = den (@oeval TE a o x y).
+Proof.
+  destruct a; cbn [factors]; try (unfold oprod; cbn [fold_right]; ring).
+  symmetry. apply den_oeval_mul.
+Qed.
+
+(* a + b evaluates to the sum, a * b to the product, WHATEVER kind of object the operands are *)
+Lemma den_op_add a b o x y :
+  den (@oeval TE (op_add a b) o x y) = den (@oeval TE a o x y) + den (@oeval TE b o x y).
+Proof. unfold op_add. rewrite den_oeval_add, osum_app, !osum_summands. reflexivity. Qed.
+Lemma den_op_mul a b o x y :
+  den (@oeval TE (op_mul a b) o x y) = den (@oeval TE a o x y) * den (@oeval TE b o x y).
+Proof. unfold op_mul. rewrite den_oeval_mul, oprod_app, !oprod_factors. reflexivity. Qed.
+(* in particular a product with a sum on either side is not the product of all the leaves *)
+Lemma den_mul_of_add a b c o x y :
+  den (@oeval TE (op_mul a (op_add b c)) o x y)
+  = den (@oeval TE a o x y) * (den (@oeval TE b o x y) + den (@oeval TE c o x y)).
+Proof. rewrite den_op_mul, den_op_add. reflexivity. Qed.
+Lemma den_add_of_mul a b c o x y :
+  den (@oeval TE (op_add a (op_mul b c)) o x y)
+  = den (@oeval TE a o x y) + den (@oeval TE b o x y) * den (@oeval TE c o x y).
+Proof. rewrite den_op_add, den_op_mul. reflexivity. Qed.
+(* the operators only re-associate: the leaves of a + b / a * b are those of a followed by those of b *)
+Fixpoint oleaves (k : kobj) : list kern :=
+  match k with
+  | OLeaf k' => [k']
+  | OScale _ k' => oleaves k'
+  | OAdd ks => flat_map oleaves ks
+  | OMul ks => flat_map oleaves ks
+  end.
+Lemma flat_map_summands a : flat_map oleaves (summands a) = oleaves a.
+Proof. destruct a; cbn [summands flat_map oleaves]; rewrite ?app_nil_r; reflexivity. Qed.
+Lemma flat_map_factors a : flat_map oleaves (factors a) = oleaves a.
+Proof. destruct a; cbn [factors flat_map oleaves]; rewrite ?app_nil_r; reflexivity. Qed.
+Lemma oleaves_op_add a b : oleaves (op_add a b) = oleaves a ++ oleaves b.
+Proof. unfold op_add. cbn [oleaves]. rewrite flat_map_app, !flat_map_summands. reflexivity. Qed.
+Lemma oleaves_op_mul a b : oleaves (op_mul a b) = oleaves a ++ oleaves b.
+Proof. unfold op_mul. cbn [oleaves]. rewrite flat_map_app, !flat_map_factors. reflexivity. Qed.
+Lemma oleaves_ops a b :
+  oleaves (op_add a b) = oleaves a ++ oleaves b /\ oleaves (op_mul a b) = oleaves a ++ oleaves b.
+Proof. split; [exact (oleaves_op_add a b)|exact (oleaves_op_mul a b)]. Qed.
+Lemma ex_mul_of_add :
+  den (@oeval TE (op_mul (OLeaf (KConst (Q2Qc 2))) (op_add (OLeaf (KConst (Q2Qc 3))) (OLeaf (KConst (Q2Qc 5))))) 0 nil nil)
+  = Q2R' (Q2Qc 16).
+Proof. vm_compute oeval. reflexivity. Qed.
+End ObjHom.
